@@ -23,6 +23,10 @@ E = "concordium_smart_contract_engine"
 SPEC = os.path.join(os.path.dirname(os.path.dirname(os.path.abspath(__file__))), "spec", "wasm_opcodes.json")
 LIMIT_FLOORS = {"MAX_NAME_SIZE": 1, "MAX_INIT_TABLE_SIZE": 2, "MAX_INIT_MEMORY_SIZE": 1, "ALLOWED_LOCALS": 1, "MAX_SWITCH_SIZE": 1,
                 "MAX_NUM_GLOBALS": 1, "MAX_ALLOWED_STACK_HEIGHT": 1, "MAX_NUM_EXPORTS": 1}
+# limits that are conditional by nature (reason each); all others must dominate every accepting return of their function
+COND_LIMITS = {("MAX_SWITCH_SIZE", "validate"): "applies to the br_table arm only",
+               ("MAX_ALLOWED_STACK_HEIGHT", "validate_module"): "tested per function body inside the loop over the code section (a module without functions has nothing to bound)",
+               ("MAX_INIT_TABLE_SIZE", "validate_module"): "tested per element segment inside the loop over them (no segments, nothing to bound)"}
 LIMIT_VALUES = {"ALLOWED_LOCALS": 1024, "MAX_INIT_TABLE_SIZE": 1000, "PAGE_SIZE": 65536, "MAX_INIT_MEMORY_SIZE": 32, "MAX_NUM_PAGES": 512,
                 "MAX_ALLOWED_STACK_HEIGHT": 1024, "MAX_NUM_GLOBALS": 1024, "MAX_SWITCH_SIZE": 4096, "MAX_NUM_EXPORTS": 100, "MAX_NAME_SIZE": 512,
                 "MAX_PREALLOCATED_BYTES": 1000}
@@ -104,6 +108,16 @@ def run(ck):
                     ck.ob("CMP", p, "limit:%s@%d" % (kn, counts.get(kn, 0)), rel == "Gt",
                           "rejects exactly when the value > %s" % kn if rel == "Gt" else
                           ("rejects when the value >= %s: the limit itself is refused although the maximum is inclusive" % kn if rel == "Ge" else "comparison with %s is not enforced (%s)" % (kn, d)), f.loc(cx["bb"]))
+                    # and the limit is enforced on every accepting path of the function (a limit tested in one arm only is no limit)
+                    acc, _ = f.accept_points()
+                    br = rules.cmp_branches(f, cx)
+                    sb = br[0] if br else cx["bb"]
+                    uncond = all(f.dominates(sb, a) for a in acc)
+                    why = COND_LIMITS.get((kn, p.split("::")[-1]))
+                    if why is None:
+                        ck.ob("DOM", p, "limit-on-every-accepting-path:%s" % kn, uncond,
+                              "the comparison with %s dominates every accepting return" % kn if uncond else
+                              "the comparison with %s is made on some paths only: an accepting return avoids it" % kn, f.loc(sb))
     for kn, fl in sorted(LIMIT_FLOORS.items()):
         ck.floor("CMP", "enforcement sites of " + kn, counts.get(kn, 0), fl)
     # segment offsets are interpreted as unsigned before their end is bounded (compilation indexes with `offset as usize`)
